@@ -3684,10 +3684,13 @@ def _generate_commitment_policy(repo):
             ("CommitmentInfo2", "value_to_parties", tx, "tx/tx.rs"),
             ("SimpleValidator", "validate_expiry", sv, "policy/simple_validator.rs"),
             ("SimpleValidator", "validate_fee", sv, "policy/simple_validator.rs"),
-            ("SimpleValidator", "validate_commitment_tx", sv, "policy/simple_validator.rs")]
+            ("SimpleValidator", "validate_commitment_tx", sv, "policy/simple_validator.rs"),
+            ("SimpleValidator", "validate_channel_value", sv, "policy/simple_validator.rs")]
     methods, texts = {}, {}
     for owner, n, src, _ in plan:
-        texts[(owner, n)] = method_source(src, owner, n)
+        # validate_channel_value is a method of the trait implementation, the others of the inherent one
+        texts[(owner, n)] = method_source(src, owner, n, header="impl Validator for SimpleValidator"
+                                          if n == "validate_channel_value" else None)
         methods[(owner, n)] = P(lex(texts[(owner, n)]), known).fn()
     # answers of LDK functions on the channel type: parameters of the translation
     feat = ("ref", ("mcall", ("var", "setup"), "features", []))
@@ -3710,7 +3713,7 @@ def _generate_commitment_policy(repo):
             "   " + l for l in texts[(owner, n)].strip().replace("(*", "( *").replace("*)", "* )").splitlines()),
             g.method2(owner, methods[(owner, n)])))
     text = ("(** GENERATED by tools/gen_rustfn.py - do not edit.  Statement-by-statement translation of\n"
-            "      SimpleValidator::validate_expiry, ::validate_fee, ::validate_commitment_tx (policy/simple_validator.rs),\n"
+            "      SimpleValidator::validate_expiry, ::validate_fee, ::validate_commitment_tx, ::validate_channel_value\n      (policy/simple_validator.rs),\n"
             "      ChannelSetup::is_anchors, ::is_zero_fee_htlc (channel.rs), CommitmentInfo2::value_to_parties (tx/tx.rs)\n"
             "    with the struct and enum declarations they read and the constants %s.\n"
             "    estimate_feerate_per_kw and expected_commitment_tx_weight are the translations of Gen/TxUtilGen.v.\n"
